@@ -148,7 +148,7 @@ func ruleC07R1(c *Ctx) {
 			c.R.Bad(rule, key, pos, fmt.Sprintf("recursive evaluation of %v at the %s instance location passes annotations=%s, expected %s: %s", s.SchemaSrc, s.Loc, s.AnnsKind, want, why))
 		}
 	}
-	c.R.Floor(rule, "recursive evaluation sites", len(m.Sites), 23)
+	c.R.Floor(rule, "recursive evaluation sites", len(m.Sites), 16)
 	// coverage: every schema-bearing applicator field of Schema is evaluated at some site
 	covered := map[string]bool{}
 	for _, s := range m.Sites {
@@ -175,7 +175,39 @@ func (m *evalModel) isFrameAnns(v ssa.Value) bool {
 	if fa, ok := v.(*ssa.FieldAddr); ok {
 		v = fa.X
 	}
-	return m.frameAnns != nil && resolveCell(v) == m.frameAnns
+	if m.frameAnns == nil {
+		return false
+	}
+	if resolveCell(v) == m.frameAnns {
+		return true
+	}
+	// the record handed to a transparent helper: a parameter that is the frame's record at every call site
+	for depth := 0; depth < 3; depth++ {
+		p, ok := v.(*ssa.Parameter)
+		if !ok || curCtx == nil || p.Parent() == m.E || !curCtx.transparent(p.Parent()) {
+			return false
+		}
+		args := curCtx.P.ArgsFor(p)
+		if len(args) == 0 {
+			return false
+		}
+		var next ssa.Value
+		for _, a := range args {
+			if resolveCell(a) == m.frameAnns {
+				continue
+			}
+			if _, isP := a.(*ssa.Parameter); isP && (next == nil || next == a) {
+				next = a
+				continue
+			}
+			return false
+		}
+		if next == nil {
+			return true
+		}
+		v = next
+	}
+	return false
 }
 
 func ruleC07R2(c *Ctx) {
@@ -534,14 +566,24 @@ func ruleC07Order(c *Ctx) {
 		}
 	}
 	c.R.Floor(rule, "unevaluated* application sites", len(uneval), 2)
-	c.R.Floor(rule, "in-place evaluation sites", len(inplace), 11)
+	c.R.Floor(rule, "in-place evaluation sites", len(inplace), 8)
 	for _, u := range uneval {
 		ua := anchor(u)
 		if ua == nil {
 			c.R.Unknown(rule, "anchor:"+u.key(), c.pos(u.siteInstr()), "cannot locate the application site in the evaluator body")
 			continue
 		}
-		uk := kf.At(ua)
+		// kinds at a site: at its anchor in the evaluator and at every helper level that leads to it
+		siteKinds := func(s *evalSite, a ssa.Instruction) KindSet {
+			ks := kf.At(a)
+			for _, lv := range s.Levels {
+				if f := lv.Parent(); f == m.E || (f.Parent() == nil && c.transparent(f)) {
+					ks &= kf.At(lv)
+				}
+			}
+			return ks
+		}
+		uk := siteKinds(u, ua)
 		for _, p := range inplace {
 			pa := anchor(p)
 			if pa == nil {
@@ -553,7 +595,7 @@ func ruleC07Order(c *Ctx) {
 				c.R.OK(rule, construct, c.pos(pa), "the in-place evaluation cannot execute after the unevaluated* application")
 				continue
 			}
-			pk := kf.At(pa)
+			pk := siteKinds(p, pa)
 			if uk&pk == 0 {
 				c.R.OK(rule, construct, c.pos(pa), fmt.Sprintf("reachable after the application, but kind-exclusive: application runs for instance kinds %s, this evaluation for %s", uk, pk))
 				continue
@@ -650,7 +692,10 @@ func ruleC07Complement(c *Ctx) {
 				continue
 			}
 			found++
-			as := atomsOf(s.siteInstr())
+			var as []atom
+			for _, lv := range s.Levels {
+				as = append(as, atomsOf(lv)...)
+			}
 			pos := c.pos(s.siteInstr())
 			c.R.Check(has(as, flag, "flag", false), rule, src+":not-all-evaluated", pos, "applied only when the merged record does not say all were evaluated (!"+flag+")",
 				"the application of "+src+" is not guarded by the negation of annotations."+flag)
@@ -838,12 +883,16 @@ func ruleC07Records(c *Ctx) {
 			}
 			ok2 := true
 			inClosure := fn != m.E
-			if kind == "evalprops" || !inClosure {
+			inHelper := fn != m.E && fn.Parent() == nil // a transparent helper of the evaluator: it records before it returns
+			if kind == "evalprops" || !inClosure || inHelper {
 				through := recordBlocks(fn, kind)
 				targets := map[*ssa.BasicBlock]bool{}
 				if inClosure {
 					for _, b := range fn.Blocks {
 						if _, isRet := b.Instrs[len(b.Instrs)-1].(*ssa.Return); isRet {
+							if inHelper && (blockReturnsErrorLocal(b) || blockReturnsErrorDeepLocal(b)) {
+								continue // a failure exit of the helper: nothing to record
+							}
 							targets[b] = true
 						}
 					}
@@ -1005,18 +1054,25 @@ func ruleC07VisitsAll(c *Ctx) {
 			if src != "Schema.AnyOf" && src != "Schema.OneOf" && src != "Schema.AllOf" {
 				continue
 			}
+			// innermost loop header around the evaluation or around a call that leads to it:
+			// a dominator of the block that is reachable from it
 			site := s.siteInstr()
-			fn := site.Parent()
-			b := site.Block()
-			// innermost loop header: a dominator of b that is reachable from b
 			var header *ssa.BasicBlock
-			for d := b; d != nil && header == nil; d = d.Idom() {
-				for _, pr := range d.Preds {
-					if d.Dominates(pr) && (pr == b || core.Reachable(b, pr, nil)) {
-						header = d
+			for _, lv := range s.Levels {
+				b := lv.Block()
+				for d := b; d != nil && header == nil; d = d.Idom() {
+					for _, pr := range d.Preds {
+						if d.Dominates(pr) && (pr == b || core.Reachable(b, pr, nil)) {
+							header = d
+						}
 					}
 				}
+				if header != nil {
+					site = lv
+					break
+				}
 			}
+			fn := site.Parent()
 			if header == nil {
 				c.R.Unknown(rule, src, c.pos(site), "the evaluation site is not inside a loop over the subschemas")
 				continue
